@@ -368,6 +368,7 @@ func (h *hostFacts) noteChallenge(r regReply) {
 		for _, realm := range authRealmTable {
 			if realm != "" && (strings.Contains(v, realm) || strings.Contains(un, realm)) {
 				h.named[realm] = true
+				h.named[authRealmText(realm)] = true
 			}
 		}
 	}
